@@ -1120,3 +1120,844 @@ Theorem C05_kernel_flow_memsafe :
           Ok (RI r, [VArrI codes; VArrI fd; VArrI idx; VArrI out])).
 Proof. exact @KernelFlow.kernel_flow_memsafe. Qed.
 Print Assumptions C05_kernel_flow_memsafe.
+
+(* ================================================================== *)
+(* NO SIGNED INTEGER OVERFLOW.  [program_chk] (Gen/KernelsAstChk.v) is the *)
+(* same translation of the C kernels as [program] with every signed integer *)
+(* +, -, *, /, unary -, ++, --, op= wrapped in [IChk <width of its C type>]: *)
+(* the interpreter stops with Err (Overflow ..) where the C program has *)
+(* undefined behaviour.  C05_erasure: a successful checked run IS the *)
+(* unchecked run (same result), and erasing the checks of program_chk gives *)
+(* program (by computation, on every run).  The theorems below are the *)
+(* refinement / safe-execution theorems of the kernels about program_chk, *)
+(* under the source hypotheses plus size hypotheses stated in terms of the *)
+(* C types (counts are C ints; products formed in long long fit 2^63-1). *)
+(* The overflow_ theorems show hypotheses that are necessary.         *)
+(* ================================================================== *)
+From Coq Require Import String Lia PrimFloat.
+From Hy Require Import Base.Num Base.MiniC Gen.KernelsAst Gen.Consts Gen.KernelsAstChk Model.Grid.
+From Hy Require Proofs.MiniCErase Proofs.ChkVar2h Proofs.ChkStat Proofs.ChkArmodel Proofs.ChkData Proofs.ChkGrid Proofs.ChkFlow.
+Import ListNotations.
+Open Scope string_scope.
+Open Scope list_scope.
+Open Scope Z_scope.
+
+(* erasure: a successful overflow-checked execution is a successful unchecked execution with the same return value and final arrays *)
+Theorem C05_erasure_simulation :
+  forall (T : Type) (N : NumOps T) (X : NumLit T) (p : MiniC.program) 
+         (fuel : nat) (f : string) (args : list (argval T)) (r : retval T * list (arrval T)),
+       exec_fun N X p fuel f args = Ok r ->
+       exec_fun N X (MiniCErase.erase_program p) fuel f args = Ok r.
+Proof. exact @MiniCErase.erase_exec_fun. Qed.
+Print Assumptions C05_erasure_simulation.
+
+(* the two regenerated programs differ by the checks only *)
+Theorem C05_erasure_of_program_chk :
+  MiniCErase.erase_program program_chk = program.
+Proof. exact @MiniCErase.program_chk_erases_to_program. Qed.
+Print Assumptions C05_erasure_of_program_chk.
+
+Theorem C05_checked_run_is_unchecked_run :
+  forall (T : Type) (N : NumOps T) (X : NumLit T) (fuel : nat) (f : string)
+         (args : list (argval T)) (r : retval T * list (arrval T)),
+       exec_fun N X program_chk fuel f args = Ok r -> exec_fun N X program fuel f args = Ok r.
+Proof. exact @MiniCErase.checked_run_is_unchecked_run. Qed.
+Print Assumptions C05_checked_run_is_unchecked_run.
+
+(* c_armodel_sim: nval is a C int; nothing else is needed (the order test precedes all arithmetic on nparams) *)
+Theorem C05_nooverflow_armodel_sim :
+  forall (T : Type) (N : NumOps T) (X : NumLit T) (mean ini : T) (params innov junk : list T)
+         (n : nat),
+       nofZ N 0 = n0 N ->
+       Datatypes.length junk = Datatypes.length innov ->
+       zlen innov <= 2147483647 ->
+       (Nat.max (Datatypes.length innov) 10 < n)%nat ->
+       match Armodel.armodel_sim N mean ini params innov with
+       | Armodel.ArErr =>
+           exists code : Z,
+             0 < code /\
+             exec_fun N X program_chk (S n) "c_armodel_sim"
+               [AVI (zlen innov); AVI (zlen params); AVF mean; AVF ini; 
+                AVArrF params; AVArrF innov; AVArrF junk] =
+             Ok (RI code, [VArrF params; VArrF innov; VArrF junk])
+       | Armodel.ArOk out =>
+           exec_fun N X program_chk (S n) "c_armodel_sim"
+             [AVI (zlen innov); AVI (zlen params); AVF mean; AVF ini; AVArrF params; 
+              AVArrF innov; AVArrF junk] = Ok (RI 0, [VArrF params; VArrF innov; VArrF out])
+       end.
+Proof. exact @ChkArmodel.chk_refine_armodel_sim. Qed.
+Print Assumptions C05_nooverflow_armodel_sim.
+
+Theorem C05_nooverflow_armodel_residual :
+  forall (T : Type) (N : NumOps T) (X : NumLit T) (mean ini : T) (params inputs junk : list T)
+         (n : nat),
+       nofZ N 0 = n0 N ->
+       Datatypes.length junk = Datatypes.length inputs ->
+       zlen inputs <= 2147483647 ->
+       (Nat.max (Datatypes.length inputs) 10 < n)%nat ->
+       match Armodel.armodel_residual N mean ini params inputs with
+       | Armodel.ArErr =>
+           exists code : Z,
+             0 < code /\
+             exec_fun N X program_chk (S n) "c_armodel_residual"
+               [AVI (zlen inputs); AVI (zlen params); AVF mean; AVF ini; 
+                AVArrF params; AVArrF inputs; AVArrF junk] =
+             Ok (RI code, [VArrF params; VArrF inputs; VArrF junk])
+       | Armodel.ArOk out =>
+           exec_fun N X program_chk (S n) "c_armodel_residual"
+             [AVI (zlen inputs); AVI (zlen params); AVF mean; AVF ini; 
+              AVArrF params; AVArrF inputs; AVArrF junk] =
+           Ok (RI 0, [VArrF params; VArrF inputs; VArrF out])
+       end.
+Proof. exact @ChkArmodel.chk_refine_armodel_residual. Qed.
+Print Assumptions C05_nooverflow_armodel_residual.
+
+(* c_paretofront: the flat index ncol*j+k is formed in int: nval*ncol - 1 <= INT_MAX *)
+Theorem C05_nooverflow_paretofront :
+  forall (T : Type) (N : NumOps T) (X : NumLit T) (nval ncol orient : Z) 
+         (data : list T) (D : list Z) (fuel : nat),
+       nval <= zlen D ->
+       nval * ncol <= zlen data ->
+       nval <= 2147483647 ->
+       0 <= ncol <= 2147483647 ->
+       nval * ncol - 1 <= 2147483647 ->
+       (Z.to_nat nval < fuel)%nat ->
+       (Z.to_nat ncol < fuel)%nat ->
+       exists D' : list Z,
+         exec_fun N X program_chk (S fuel) "c_paretofront"
+           [AVI nval; AVI ncol; AVI orient; AVArrF data; AVArrI D] =
+         Ok (RI 0, [VArrF data; VArrI D']) /\ Datatypes.length D' = Datatypes.length D.
+Proof. exact @ChkArmodel.chk_safe_c_paretofront. Qed.
+Print Assumptions C05_nooverflow_paretofront.
+
+(* ... and that hypothesis is necessary: a (2, INT_MAX) array overflows the index (34 GB of data: not realistic; assumed range, see the manifest note) *)
+Theorem C05_overflow_paretofront_index :
+  forall (T : Type) (N : NumOps T) (X : NumLit T) (orient : Z) (data : list T) 
+         (D : list Z) (fuel : nat),
+       zlen D = 2 ->
+       zlen data = 2 * 2147483647 ->
+       (2 <= fuel)%nat ->
+       exec_fun N X program_chk (S fuel) "c_paretofront"
+         [AVI 2; AVI 2147483647; AVI orient; AVArrF data; AVArrI D] =
+       Err (Overflow true 2147483648).
+Proof. exact @ChkArmodel.overflow_c_paretofront_index. Qed.
+Print Assumptions C05_overflow_paretofront_index.
+
+(* c_aggregate / c_flathomogen: nval is a C int *)
+Theorem C05_nooverflow_aggregate :
+  forall (T : Type) (N : NumOps T) (X : NumLit T),
+       nofZ N 0 = n0 N ->
+       forall (op maxnan : Z) (idx : list Z) (xs outbuf : list T) (ie : Z) (n : nat),
+       Datatypes.length xs = Datatypes.length idx ->
+       Datatypes.length outbuf = Datatypes.length idx ->
+       (Datatypes.length idx < n)%nat ->
+       zlen idx <= ChkData.INT_MAX ->
+       let run :=
+         exec_fun N X program_chk (S n) "c_aggregate"
+           [AVI (zlen idx); AVI op; AVI maxnan; AVArrI idx; AVArrF xs; AVArrF outbuf; AVArrI [ie]]
+         in
+       match Dutils.c_aggregate N (Dutils.agg_upd N) (zlen idx) op maxnan idx xs outbuf with
+       | Dutils.KUndef => run = Ok (RI 0, [VArrI idx; VArrF xs; VArrF outbuf; VArrI [0]])
+       | Dutils.KDone (out, iend) =>
+           run = Ok (RI 0, [VArrI idx; VArrF xs; VArrF out; VArrI [iend]])
+       | _ =>
+           exists (code : Z) (out' : list T),
+             0 < code /\
+             Datatypes.length out' = Datatypes.length outbuf /\
+             run = Ok (RI code, [VArrI idx; VArrF xs; VArrF out'; VArrI [ie]])
+       end.
+Proof. exact @ChkData.chk_refine_aggregate. Qed.
+Print Assumptions C05_nooverflow_aggregate.
+
+Theorem C05_nooverflow_flathomogen :
+  forall (T : Type) (N : NumOps T) (X : NumLit T),
+       nofZ N 0 = n0 N ->
+       forall (maxnan : Z) (idx : list Z) (xs outbuf : list T) (n : nat),
+       Datatypes.length xs = Datatypes.length idx ->
+       Datatypes.length outbuf = Datatypes.length idx ->
+       (Datatypes.length idx < n)%nat ->
+       zlen idx <= ChkData.INT_MAX ->
+       let run :=
+         exec_fun N X program_chk (S n) "c_flathomogen"
+           [AVI (zlen idx); AVI maxnan; AVArrI idx; AVArrF xs; AVArrF outbuf] in
+       match Dutils.c_flathomogen N maxnan idx xs with
+       | Dutils.KUndef => run = Ok (RI 0, [VArrI idx; VArrF xs; VArrF outbuf])
+       | Dutils.KDone out => run = Ok (RI 0, [VArrI idx; VArrF xs; VArrF out])
+       | _ =>
+           exists (code : Z) (out' : list T),
+             0 < code /\
+             Datatypes.length out' = Datatypes.length outbuf /\
+             run = Ok (RI code, [VArrI idx; VArrF xs; VArrF out'])
+       end.
+Proof. exact @ChkData.chk_refine_flathomogen. Qed.
+Print Assumptions C05_nooverflow_flathomogen.
+
+Theorem C05_nooverflow_isleapyear :
+  forall (T : Type) (N : NumOps T) (X : NumLit T) (year : Z) (n : nat),
+       exec_fun N X program_chk (S n) "c_dateutils_isleapyear" [AVI year] =
+       Ok (RI (b2z (Dutils.is_leap year)), []).
+Proof. exact @ChkData.chk_safe_c_dateutils_isleapyear. Qed.
+Print Assumptions C05_nooverflow_isleapyear.
+
+Theorem C05_nooverflow_daysinmonth :
+  forall (T : Type) (N : NumOps T) (X : NumLit T) (year month : Z) (n : nat),
+       (0 < n)%nat ->
+       exec_fun N X program_chk (S n) "c_dateutils_daysinmonth" [AVI year; AVI month] =
+       Ok (RI (Dutils.days_in_month year month), []).
+Proof. exact @ChkData.chk_safe_c_dateutils_daysinmonth. Qed.
+Print Assumptions C05_nooverflow_daysinmonth.
+
+Theorem C05_nooverflow_dayofyear :
+  forall (T : Type) (N : NumOps T) (X : NumLit T) (month day : Z) (n : nat),
+       exec_fun N X program_chk (S n) "c_dateutils_dayofyear" [AVI month; AVI day] =
+       Ok (RI (ChkData.day_of_year month day), []).
+Proof. exact @ChkData.chk_safe_c_dateutils_dayofyear. Qed.
+Print Assumptions C05_nooverflow_dayofyear.
+
+(* the INT_MAX guard of the repaired code makes the year increment safe for every int year *)
+Theorem C05_nooverflow_add1month :
+  forall (T : Type) (N : NumOps T) (X : NumLit T) (y m d : Z) (rest : list Z) (n : nat),
+       Dutils.in_int32 y ->
+       Dutils.in_int32 m ->
+       (1 < n)%nat ->
+       exists (ret : Z) (out : list Z),
+         exec_fun N X program_chk (S n) "c_dateutils_add1month" [AVArrI (y :: m :: d :: rest)] =
+         Ok (RI ret, [VArrI out]) /\
+         Datatypes.length out = Datatypes.length (y :: m :: d :: rest) /\
+         (if negb (m <? 12) && (y =? ChkData.INT_MAX)
+          then 0 < ret /\ out = y :: m :: d :: rest
+          else
+           match Dutils.c_add1month (y, m, d) with
+           | Some (y', m', d') => ret = 0 /\ out = y' :: m' :: d' :: rest
+           | None => 0 < ret /\ out = y :: m + 1 :: d :: rest
+           end).
+Proof. exact @ChkData.chk_safe_c_dateutils_add1month. Qed.
+Print Assumptions C05_nooverflow_add1month.
+
+Theorem C05_nooverflow_add1day :
+  forall (T : Type) (N : NumOps T) (X : NumLit T) (y m d : Z) (rest : list Z) (n : nat),
+       Dutils.in_int32 y ->
+       Dutils.in_int32 d ->
+       (1 < n)%nat ->
+       exists (ret : Z) (out : list Z),
+         exec_fun N X program_chk (S n) "c_dateutils_add1day" [AVArrI (y :: m :: d :: rest)] =
+         Ok (RI ret, [VArrI out]) /\
+         Datatypes.length out = Datatypes.length (y :: m :: d :: rest) /\
+         match Dutils.c_add1day (y, m, d) with
+         | Some (y', m', d') =>
+             if (d =? Dutils.days_in_month y m) && negb (m <? 12) && (y =? ChkData.INT_MAX)
+             then 0 < ret /\ out = y :: m :: 1 :: rest
+             else ret = 0 /\ out = y' :: m' :: d' :: rest
+         | None => 0 < ret /\ out = y :: m :: d :: rest
+         end.
+Proof. exact @ChkData.chk_safe_c_dateutils_add1day. Qed.
+Print Assumptions C05_nooverflow_add1day.
+
+Theorem C05_nooverflow_comparedates :
+  forall (T : Type) (N : NumOps T) (X : NumLit T) (a0 a1 a2 : Z) (r1 : list Z) 
+         (b0 b1 b2 : Z) (r2 : list Z) (n : nat),
+       exec_fun N X program_chk (S n) "c_dateutils_comparedates"
+         [AVArrI (a0 :: a1 :: a2 :: r1); AVArrI (b0 :: b1 :: b2 :: r2)] =
+       Ok
+         (RI (ChkData.compare_dates a0 a1 a2 b0 b1 b2),
+          [VArrI (a0 :: a1 :: a2 :: r1); VArrI (b0 :: b1 :: b2 :: r2)]).
+Proof. exact @ChkData.chk_safe_c_dateutils_comparedates. Qed.
+Print Assumptions C05_nooverflow_comparedates.
+
+Theorem C05_nooverflow_getdate_reject :
+  forall (T : Type) (N : NumOps T) (X : NumLit T) (day : T) (date : list Z) (n : nat),
+       ChkData.getdate_reject N X day = true ->
+       exists ret : Z,
+         exec_fun N X program_chk (S n) "c_dateutils_getdate" [AVF day; AVArrI date] =
+         Ok (RI ret, [VArrI date]) /\ 0 < ret.
+Proof. exact @ChkData.chk_safe_c_dateutils_getdate_reject. Qed.
+Print Assumptions C05_nooverflow_getdate_reject.
+
+(* getdate over the reals with NaN: every accepted day number decomposes without overflow *)
+Theorem C05_nooverflow_getdate_reals_with_nan :
+  forall (day : option R) (y0 m0 d0 : Z) (rest : list Z) (n : nat),
+       (1 < n)%nat ->
+       exists (ret : Z) (out : list Z),
+         exec_fun RN XRN program_chk (S n) "c_dateutils_getdate"
+           [AVF day; AVArrI (y0 :: m0 :: d0 :: rest)] = Ok (RI ret, [VArrI out]) /\
+         Datatypes.length out = Datatypes.length (y0 :: m0 :: d0 :: rest).
+Proof. exact @ChkData.chk_safe_c_dateutils_getdate_RN. Qed.
+Print Assumptions C05_nooverflow_getdate_reals_with_nan.
+
+Theorem C05_nooverflow_islin :
+  forall (T : Type) (N : NumOps T) (X : NumLit T) (thresh tol : T) 
+         (npoints : Z) (data : list T) (il : list Z) (n : nat),
+       Datatypes.length il = Datatypes.length data ->
+       (Datatypes.length data < n)%nat ->
+       zlen data <= ChkData.INT_MAX ->
+       exists out : list Z,
+         exec_fun N X program_chk (S n) "c_islin"
+           [AVI (zlen data); AVF thresh; AVF tol; AVI npoints; AVArrF data; AVArrI il] =
+         Ok (RI 0, [VArrF data; VArrI out]) /\ Datatypes.length out = Datatypes.length data.
+Proof. exact @ChkData.chk_safe_c_islin. Qed.
+Print Assumptions C05_nooverflow_islin.
+
+Theorem C05_nooverflow_eckhardt :
+  forall (T : Type) (N : NumOps T) (X : NumLit T) (tt : Z) (thresh tau bfi : T)
+         (inputs outputs : list T) (n : nat),
+       (forall v : T, next X "exp" [v] <> None) ->
+       Datatypes.length outputs = Datatypes.length inputs ->
+       (Datatypes.length inputs < n)%nat ->
+       zlen inputs <= ChkData.INT_MAX ->
+       exists (ret : Z) (out : list T),
+         exec_fun N X program_chk (S n) "c_eckhardt"
+           [AVI (zlen inputs); AVI tt; AVF thresh; AVF tau; AVF bfi; AVArrF inputs; AVArrF outputs] =
+         Ok (RI ret, [VArrF inputs; VArrF out]) /\
+         Datatypes.length out = Datatypes.length inputs /\ (ret = 0 \/ ret = 33).
+Proof. exact @ChkData.chk_safe_c_eckhardt. Qed.
+Print Assumptions C05_nooverflow_eckhardt.
+
+(* c_var2h: the period start hstartsec + (long long)i*nbsec is a 64-bit sum of a 64-bit product: only 64-bit ranges are needed (the seeded regression that drops the cast makes this proof fail) *)
+Theorem C05_nooverflow_var2h :
+  forall (P rain disp maxgap hstart : Z) (sec : list Z) (vals hinit : list (option R))
+         (n : nat),
+       Datatypes.length vals = Datatypes.length sec ->
+       zlen sec <= 2147483647 ->
+       zlen hinit <= 2147483647 ->
+       -9223372036854775808 <= hstart <= 9223372036854775807 ->
+       (In P ConstsC14.VAR2H_C_PERIODS ->
+        2 <= zlen hinit -> hstart + (zlen hinit - 2) * P <= 9223372036854775807) ->
+       (Nat.max (Datatypes.length sec) (Datatypes.length hinit) < n)%nat ->
+       match Var2h.c_var2h_RN true P rain maxgap hstart sec vals hinit with
+       | Var2h.VUndef =>
+           (sec = [] ->
+            exists code : Z,
+              0 < code /\
+              exec_fun RN XRN program_chk (S n) "c_var2h"
+                (RefineVar2h.var2h_args P rain disp maxgap hstart sec vals hinit) =
+              Ok (RI code, [VArrI sec; VArrF vals; VArrF hinit])) /\
+           (sec <> [] ->
+            exec_fun RN XRN program_chk (S n) "c_var2h"
+              (RefineVar2h.var2h_args P rain disp maxgap hstart sec vals hinit) =
+            Ok (RI 0, [VArrI sec; VArrF vals; VArrF (RefineVar2h.nan_fill RN hinit)]))
+       | Var2h.VErr =>
+           exists (code : Z) (h' : list (option R)),
+             0 < code /\
+             Datatypes.length h' = Datatypes.length hinit /\
+             exec_fun RN XRN program_chk (S n) "c_var2h"
+               (RefineVar2h.var2h_args P rain disp maxgap hstart sec vals hinit) =
+             Ok (RI code, [VArrI sec; VArrF vals; VArrF h'])
+       | Var2h.VOk h =>
+           exec_fun RN XRN program_chk (S n) "c_var2h"
+             (RefineVar2h.var2h_args P rain disp maxgap hstart sec vals hinit) =
+           Ok (RI 0, [VArrI sec; VArrF vals; VArrF h])
+       end.
+Proof. exact @ChkVar2h.chk_refine_c_var2h_RN. Qed.
+Print Assumptions C05_nooverflow_var2h.
+
+(* the 64-bit hypothesis is necessary (hstartsec near LLONG_MAX; pandas time stamps are below 2^33 s) *)
+Theorem C05_overflow_var2h_start :
+  exec_fun F64 XF64 program_chk 10 "c_var2h"
+         (RefineVar2h.var2h_args 3600 0 0 432000 9223372036854772208
+            [9223372036854772208; 9223372036854772209] [1%float; 1%float]
+            [0%float; 0%float; 0%float]) = Err (Overflow false 9223372036854775808).
+Proof. exact @ChkVar2h.overflow_c_var2h_start. Qed.
+Print Assumptions C05_overflow_var2h_start.
+
+Theorem C05_nooverflow_getnxy :
+  forall (T : Type) (N : NumOps T) (X : NumLit T) (n : nat) (ncols idx a b : Z),
+       ncols <> 0 ->
+       -9223372036854775808 <= idx <= 9223372036854775807 ->
+       idx <> -9223372036854775808 \/ ncols <> -1 ->
+       exec_fun N X program_chk (S n) "getnxy" [AVI ncols; AVI idx; AVArrI [a; b]] =
+       Ok (RI 0, [VArrI [getnx ncols idx; getny ncols idx]]).
+Proof. exact @ChkGrid.chk_getnxy_run. Qed.
+Print Assumptions C05_nooverflow_getnxy.
+
+(* grid kernels (long long): nrows*ncols within long long, 2*nval-1 <= LLONG_MAX *)
+Theorem C05_nooverflow_cell2rowcol :
+  forall (T : Type) (N : NumOps T) (X : NumLit T) (nrows ncols : Z) 
+         (idx junk : list Z) (n : nat),
+       -9223372036854775808 <= nrows * ncols <= 9223372036854775807 ->
+       2 * zlen idx - 1 <= 9223372036854775807 ->
+       Datatypes.length junk = (2 * Datatypes.length idx)%nat ->
+       (Datatypes.length idx < n)%nat ->
+       exec_fun N X program_chk (S n) "c_cell2rowcol"
+         [AVI nrows; AVI ncols; AVI (zlen idx); AVArrI idx; AVArrI junk] =
+       Ok (RI 0, [VArrI idx; VArrI (RefineGrid.rc_out nrows ncols idx)]).
+Proof. exact @ChkGrid.chk_refine_cell2rowcol. Qed.
+Print Assumptions C05_nooverflow_cell2rowcol.
+
+Theorem C05_nooverflow_cell2coord :
+  forall (T : Type) (N : NumOps T) (X : NumLit T) (nrows ncols : Z) 
+         (xll yll csz : T) (idx : list Z) (junk : list T) (n : nat),
+       RefineGridGeom.half_law N X ->
+       -9223372036854775808 <= nrows * ncols <= 9223372036854775807 ->
+       2 * zlen idx - 1 <= 9223372036854775807 ->
+       Datatypes.length junk = (2 * Datatypes.length idx)%nat ->
+       (Datatypes.length idx < n)%nat ->
+       exec_fun N X program_chk (S n) "c_cell2coord"
+         [AVI nrows; AVI ncols; AVF xll; AVF yll; AVF csz; AVI (zlen idx); AVArrI idx; AVArrF junk] =
+       Ok (RI 0, [VArrI idx; VArrF (RefineGridGeom.cc_out N nrows ncols xll yll csz idx)]).
+Proof. exact @ChkGrid.chk_refine_cell2coord. Qed.
+Print Assumptions C05_nooverflow_cell2coord.
+
+Theorem C05_nooverflow_coord2cell_reals :
+  forall (nrows ncols : Z) (xll yll csz : R) (xy : list R) (junk : list Z) (n : nat),
+       nrows <= RefineGridGeom.cmax64 ->
+       ncols <= RefineGridGeom.cmax64 ->
+       nrows * ncols - 1 <= 9223372036854775807 ->
+       2 * zlen junk - 1 <= 9223372036854775807 ->
+       Datatypes.length xy = (2 * Datatypes.length junk)%nat ->
+       (Datatypes.length junk < n)%nat ->
+       exec_fun RR XRR program_chk (S n) "c_coord2cell"
+         [AVI nrows; AVI ncols; AVF xll; AVF yll; AVF csz; AVI (zlen junk); AVArrF xy; AVArrI junk] =
+       Ok
+         (RI 0,
+          [VArrF xy; VArrI (map (coord2cell RR nrows ncols xll yll csz) (RefineGridGeom.pairs xy))]).
+Proof. exact @ChkGrid.chk_refine_coord2cell_raw_RR. Qed.
+Print Assumptions C05_nooverflow_coord2cell_reals.
+
+Theorem C05_nooverflow_neighbours :
+  forall (T : Type) (N : NumOps T) (X : NumLit T) (nrows ncols idx : Z) 
+         (nb : list Z) (n : nat),
+       -9223372036854775808 <= nrows * ncols <= 9223372036854775807 ->
+       Datatypes.length nb = 9%nat ->
+       (3 < n)%nat ->
+       match neighbours nrows ncols idx with
+       | Some l =>
+           exec_fun N X program_chk (S n) "c_neighbours" [AVI nrows; AVI ncols; AVI idx; AVArrI nb] =
+           Ok (RI 0, [VArrI l])
+       | None =>
+           exists code : Z,
+             0 < code /\
+             exec_fun N X program_chk (S n) "c_neighbours"
+               [AVI nrows; AVI ncols; AVI idx; AVArrI nb] = Ok (RI code, [VArrI nb])
+       end.
+Proof. exact @ChkGrid.chk_refine_neighbours. Qed.
+Print Assumptions C05_nooverflow_neighbours.
+
+(* a 2^32 x 2^32 grid overflows nrows*ncols (necessity of the hypothesis) *)
+Theorem C05_overflow_cell2rowcol_ncells :
+  forall (T : Type) (N : NumOps T) (X : NumLit T) (n : nat) (a b : Z),
+       exec_fun N X program_chk (S (S n)) "c_cell2rowcol"
+         [AVI ChkGrid.two32; AVI ChkGrid.two32; AVI 1; AVArrI [0]; AVArrI [a; b]] =
+       Err (Overflow false 18446744073709551616).
+Proof. exact @ChkGrid.overflow_cell2rowcol_ncells. Qed.
+Print Assumptions C05_overflow_cell2rowcol_ncells.
+
+Theorem C05_nooverflow_downstream :
+  forall (T : Type) (N : NumOps T) (X : NumLit T) (nrows ncols : Z) (codes fdl : list Z),
+       nrows * ncols <= 9223372036854775807 ->
+       forall (idx junk : list Z) (n : nat),
+       Datatypes.length codes = 9%nat ->
+       Z.of_nat (Datatypes.length fdl) = nrows * ncols ->
+       Datatypes.length junk = Datatypes.length idx ->
+       zlen idx <= 9223372036854775807 ->
+       (Datatypes.length idx < n)%nat ->
+       (9 < n)%nat ->
+       (exists out : list Z,
+          Forall2 (fun c v : Z => downstream_with codes nrows ncols fdl c = Some v) idx out /\
+          exec_fun N X program_chk (S n) "c_downstream"
+            [AVI nrows; AVI ncols; AVArrI codes; AVArrI fdl; AVI (zlen idx); 
+             AVArrI idx; AVArrI junk] = Ok (RI 0, [VArrI codes; VArrI fdl; VArrI idx; VArrI out])) \/
+       (exists (done : list Z) (bad : Z) (rest outd : list Z) (code : Z),
+          idx = done ++ bad :: rest /\
+          Forall2 (fun c v : Z => downstream_with codes nrows ncols fdl c = Some v) done outd /\
+          downstream_with codes nrows ncols fdl bad = None /\
+          0 < code /\
+          exec_fun N X program_chk (S n) "c_downstream"
+            [AVI nrows; AVI ncols; AVArrI codes; AVArrI fdl; AVI (zlen idx); 
+             AVArrI idx; AVArrI junk] =
+          Ok
+            (RI code,
+             [VArrI codes; VArrI fdl; VArrI idx; VArrI (outd ++ skipn (Datatypes.length done) junk)])).
+Proof. exact @ChkFlow.chk_refine_downstream_total. Qed.
+Print Assumptions C05_nooverflow_downstream.
+
+(* 9*nval <= LLONG_MAX for the index 9*i+k *)
+Theorem C05_nooverflow_upstream :
+  forall (T : Type) (N : NumOps T) (X : NumLit T) (nrows ncols : Z) (codes fdl : list Z),
+       nrows * ncols <= 9223372036854775807 ->
+       forall (idx junk : list Z) (n : nat),
+       Datatypes.length codes = 9%nat ->
+       Z.of_nat (Datatypes.length fdl) = nrows * ncols ->
+       Datatypes.length junk = (9 * Datatypes.length idx)%nat ->
+       9 * zlen idx <= 9223372036854775807 ->
+       (Datatypes.length idx < n)%nat ->
+       (9 < n)%nat ->
+       (exists outs : list (list Z),
+          Forall2
+            (fun (c : Z) (l : list Z) => RefineFlow.upstream_with codes nrows ncols fdl c = Some l)
+            idx outs /\
+          exec_fun N X program_chk (S n) "c_upstream"
+            [AVI nrows; AVI ncols; AVArrI codes; AVArrI fdl; AVI (zlen idx); 
+             AVArrI idx; AVArrI junk] =
+          Ok (RI 0, [VArrI codes; VArrI fdl; VArrI idx; VArrI (List.concat outs)])) \/
+       (exists (done : list Z) (bad : Z) (rest : list Z) (outsd : list (list Z)) 
+        (code : Z),
+          idx = done ++ bad :: rest /\
+          Forall2
+            (fun (c : Z) (l : list Z) => RefineFlow.upstream_with codes nrows ncols fdl c = Some l)
+            done outsd /\
+          RefineFlow.upstream_with codes nrows ncols fdl bad = None /\
+          0 < code /\
+          exec_fun N X program_chk (S n) "c_upstream"
+            [AVI nrows; AVI ncols; AVArrI codes; AVArrI fdl; AVI (zlen idx); 
+             AVArrI idx; AVArrI junk] =
+          Ok
+            (RI code,
+             [VArrI codes; VArrI fdl; VArrI idx;
+              VArrI (List.concat outsd ++ skipn (9 * Datatypes.length done) junk)])).
+Proof. exact @ChkFlow.chk_refine_upstream_total. Qed.
+Print Assumptions C05_nooverflow_upstream.
+
+(* maxcells + 1 <= LLONG_MAX for accumulated_cells++ *)
+Theorem C05_nooverflow_accumulate :
+  forall (T : Type) (N : NumOps T) (X : NumLit T) (nrows ncols nprint maxcells : Z)
+         (nodata : T) (fd : list Z) (field : list T) (n : nat),
+       Datatypes.length fd = Z.to_nat (nrows * ncols) ->
+       Datatypes.length field = Z.to_nat (nrows * ncols) ->
+       -9223372036854775808 <= nrows * ncols <= 9223372036854775807 ->
+       maxcells + 1 <= 9223372036854775807 ->
+       (Nat.max (Nat.max (Z.to_nat (nrows * ncols)) (Z.to_nat (maxcells + 1))) 10 < n)%nat ->
+       match Accumulate.accumulate N nrows ncols maxcells nodata fd field with
+       | Some res =>
+           exec_fun N X program_chk (S n) "c_accumulate"
+             [AVI nrows; AVI ncols; AVI nprint; AVI maxcells; AVF nodata; 
+              AVArrI FLOWDIRCODE; AVArrI fd; AVArrF field; AVArrF field] =
+           Ok (RI 0, [VArrI FLOWDIRCODE; VArrI fd; VArrF field; VArrF res])
+       | None =>
+           exists code : Z,
+             0 < code /\
+             exec_fun N X program_chk (S n) "c_accumulate"
+               [AVI nrows; AVI ncols; AVI nprint; AVI maxcells; AVF nodata; 
+                AVArrI FLOWDIRCODE; AVArrI fd; AVArrF field; AVArrF field] =
+             Ok (RI code, [VArrI FLOWDIRCODE; VArrI fd; VArrF field; VArrF field])
+       end.
+Proof. exact @ChkFlow.chk_refine_accumulate. Qed.
+Print Assumptions C05_nooverflow_accumulate.
+
+(* c_combi: n-k must fit an int (only evaluated when k <= 30); the long long accumulator never overflows under the guard (all 59 x 30 cases by computation) *)
+Theorem C05_nooverflow_combi :
+  forall (T : Type) (N : NumOps T) (X : NumLit T) (n k : Z) (fuel : nat),
+       (k <= 30 -> -2147483648 <= n - k <= 2147483647) ->
+       (30 < fuel)%nat ->
+       exists ret : Z,
+         exec_fun N X program_chk (S fuel) "c_combi" [AVI n; AVI k] = Ok (RI ret, []) /\
+         ((30 <? k) || (30 <? n - k) = true -> ret = -1).
+Proof. exact @ChkStat.chk_safe_c_combi. Qed.
+Print Assumptions C05_nooverflow_combi.
+
+Theorem C05_overflow_combi_nk :
+  forall (T : Type) (N : NumOps T) (X : NumLit T) (n k : Z) (fuel : nat),
+       k <= 30 ->
+       n - k < -2147483648 \/ 2147483647 < n - k ->
+       exec_fun N X program_chk (S fuel) "c_combi" [AVI n; AVI k] = Err (Overflow true (n - k)).
+Proof. exact @ChkStat.overflow_c_combi_nk. Qed.
+Print Assumptions C05_overflow_combi_nk.
+
+Theorem C05_nooverflow_olsleverage :
+  forall (T : Type) (N : NumOps T) (X : NumLit T) (nval np : Z) (P Xi L : list T) (fuel : nat),
+       (0 < nval -> 0 < np -> nval * np <= zlen P /\ np * np <= zlen Xi /\ nval <= zlen L) ->
+       nval <= 2147483647 ->
+       (0 < nval -> 0 < np -> nval * np <= 2147483648 /\ np * np <= 2147483648) ->
+       (Z.to_nat nval < fuel)%nat ->
+       (Z.to_nat np < fuel)%nat ->
+       exists L' : list T,
+         exec_fun N X program_chk (S fuel) "c_olsleverage"
+           [AVI nval; AVI np; AVArrF P; AVArrF Xi; AVArrF L] =
+         Ok (RI 0, [VArrF P; VArrF Xi; VArrF L']) /\ Datatypes.length L' = Datatypes.length L.
+Proof. exact @ChkStat.chk_safe_c_olsleverage. Qed.
+Print Assumptions C05_nooverflow_olsleverage.
+
+(* after the fix c81eaee ((double)n*n): no hypothesis at all *)
+Theorem C05_nooverflow_errfix :
+  forall (T : Type) (N : NumOps T) (X : NumLit T) (n : Z) (x : T) (fuel : nat),
+       exists r : T, exec_fun N X program_chk (S fuel) "errfix" [AVI n; AVF x] = Ok (RF r, []).
+Proof. exact @ChkStat.chk_safe_errfix. Qed.
+Print Assumptions C05_nooverflow_errfix.
+
+Theorem C05_nooverflow_AD :
+  forall (T : Type) (N : NumOps T) (X : NumLit T) (n : Z) (z : T) (fuel : nat),
+       ChkStat.ext_total X "exp" ->
+       (0 < fuel)%nat ->
+       exists r : T, exec_fun N X program_chk (S fuel) "AD" [AVI n; AVF z] = Ok (RF r, []).
+Proof. exact @ChkStat.chk_safe_AD. Qed.
+Print Assumptions C05_nooverflow_AD.
+
+(* ADtest: i+i+1 is formed in int: n <= 2^30 *)
+Theorem C05_nooverflow_ADtest :
+  forall (T : Type) (N : NumOps T) (X : NumLit T) (n : Z) (x outs : list T) (fuel : nat),
+       ChkStat.ext_total X "exp" ->
+       ChkStat.ext_total X "log" ->
+       n <= zlen x ->
+       2 <= zlen outs ->
+       -2147483647 <= n <= 1073741824 ->
+       (Z.to_nat n < fuel)%nat ->
+       (1 < fuel)%nat ->
+       exists (code : Z) (outs' : list T),
+         exec_fun N X program_chk (S fuel) "ADtest" [AVI n; AVArrF x; AVArrF outs] =
+         Ok (RI code, [VArrF x; VArrF outs']) /\
+         0 <= code /\ Datatypes.length outs' = Datatypes.length outs.
+Proof. exact @ChkStat.chk_safe_ADtest. Qed.
+Print Assumptions C05_nooverflow_ADtest.
+
+Theorem C05_nooverflow_ad_test :
+  forall (T : Type) (N : NumOps T) (X : NumLit T) (nval : Z) (unifdata outs : list T)
+         (fuel : nat),
+       ChkStat.ext_total X "exp" ->
+       ChkStat.ext_total X "log" ->
+       0 <= nval <= zlen unifdata ->
+       2 <= zlen outs ->
+       nval <= 1073741824 ->
+       (S (Z.to_nat nval) < fuel)%nat ->
+       (2 < fuel)%nat ->
+       exists (code : Z) (data' outs' : list T),
+         exec_fun N X program_chk (S fuel) "c_ad_test" [AVI nval; AVArrF unifdata; AVArrF outs] =
+         Ok (RI code, [VArrF data'; VArrF outs']) /\
+         0 <= code /\
+         Datatypes.length data' = Datatypes.length unifdata /\
+         Datatypes.length outs' = Datatypes.length outs.
+Proof. exact @ChkStat.chk_safe_c_ad_test. Qed.
+Print Assumptions C05_nooverflow_ad_test.
+
+Theorem C05_nooverflow_ad_probn :
+  forall (T : Type) (N : NumOps T) (X : NumLit T) (nval nsample : Z) 
+         (U P : list T) (fuel : nat),
+       ChkStat.ext_total X "exp" ->
+       nval <= zlen U ->
+       nval <= zlen P ->
+       nval <= 2147483647 ->
+       (Z.to_nat nval < fuel)%nat ->
+       (1 < fuel)%nat ->
+       exists P' : list T,
+         exec_fun N X program_chk (S fuel) "c_ad_probn" [AVI nval; AVI nsample; AVArrF U; AVArrF P] =
+         Ok (RI 0, [VArrF U; VArrF P']) /\ Datatypes.length P' = Datatypes.length P.
+Proof. exact @ChkStat.chk_safe_c_ad_probn. Qed.
+Print Assumptions C05_nooverflow_ad_probn.
+
+Theorem C05_nooverflow_ad_probapproxinf :
+  forall (T : Type) (N : NumOps T) (X : NumLit T) (nval : Z) (U P : list T) (fuel : nat),
+       ChkStat.ext_total X "exp" ->
+       nval <= zlen U ->
+       nval <= zlen P ->
+       nval <= 2147483647 ->
+       (Z.to_nat nval < fuel)%nat ->
+       (0 < fuel)%nat ->
+       exists P' : list T,
+         exec_fun N X program_chk (S fuel) "c_ad_probapproxinf" [AVI nval; AVArrF U; AVArrF P] =
+         Ok (RI 0, [VArrF U; VArrF P']) /\ Datatypes.length P' = Datatypes.length P.
+Proof. exact @ChkStat.chk_safe_c_ad_probapproxinf. Qed.
+Print Assumptions C05_nooverflow_ad_probapproxinf.
+
+(* ================================================================== *)
+(* no signed integer overflow (continued): c_inside, c_ensrank        *)
+(* ================================================================== *)
+From Coq Require Import String Lia PrimFloat.
+From Hy Require Import Base.Num Base.MiniC Gen.KernelsAst Gen.Consts Gen.KernelsAstChk Model.Polygon Model.Dscore.
+From Hy Require Proofs.ChkMisc.
+Import ListNotations.
+Open Scope string_scope.
+Open Scope list_scope.
+Open Scope Z_scope.
+
+(* c_inside: the indices 2*ipt+1 and 2*(ivert % nvertices)+1 are formed in int: at most 2^30 points / vertices *)
+Theorem C05_nooverflow_inside :
+  forall (T : Type) (N : NumOps T) (X : NumLit T) (nprint : Z) (pts poly : list (T * T))
+         (atol xl0 xl1 yl0 yl1 : T) (ins : list Z) (n : nat),
+       Datatypes.length ins = Datatypes.length pts ->
+       poly <> [] ->
+       (Datatypes.length pts < n)%nat ->
+       (Datatypes.length poly < n)%nat ->
+       2 * zlen pts - 1 <= 2147483647 ->
+       2 * zlen poly - 1 <= 2147483647 ->
+       exec_fun N X program_chk (S n) "c_inside"
+         [AVI nprint; AVI (zlen pts); AVArrF (RefinePolygon.flat pts); 
+          AVI (zlen poly); AVArrF (RefinePolygon.flat poly); AVF atol; 
+          AVArrF [xl0; xl1]; AVArrF [yl0; yl1]; AVArrI ins] =
+       Ok
+         (RI 0,
+          [VArrF (RefinePolygon.flat pts); VArrF (RefinePolygon.flat poly); 
+           VArrF [xl0; xl1]; VArrF [yl0; yl1];
+           VArrI (c_inside N atol (xl0, xl1) (yl0, yl1) poly pts ins)]).
+Proof. exact @ChkMisc.ChkInside.chk_refine_c_inside_wrapper. Qed.
+Print Assumptions C05_nooverflow_inside.
+
+(* necessity: nvertices = INT_MAX overflows nvertices+1 in the loop condition *)
+Theorem C05_overflow_inside_nvertices :
+  forall (T : Type) (N : NumOps T) (X : NumLit T) (nprint : Z) (p : T * T)
+         (pts : list (T * T)) (x0 y0 : T) (rest : list T) (atol xl0 xl1 yl0 yl1 : T) 
+         (o : Z) (ins : list Z) (n : nat),
+       outside_box N (xl0, xl1) (yl0, yl1) p = false ->
+       exec_fun N X program_chk (S (S n)) "c_inside"
+         [AVI nprint; AVI (zlen (p :: pts)); AVArrF (RefinePolygon.flat (p :: pts));
+          AVI 2147483647; AVArrF (x0 :: y0 :: rest); AVF atol; AVArrF [xl0; xl1];
+          AVArrF [yl0; yl1]; AVArrI (o :: ins)] = Err (Overflow true 2147483648).
+Proof. exact @ChkMisc.ChkInside.overflow_c_inside_nvertices. Qed.
+Print Assumptions C05_overflow_inside_nvertices.
+
+(* c_ensrank: 2*ncol, the sim index ncol*(i2-1)+j and the fmat index i1*nval+i2 are formed in int; NO hypothesis on ncol*(ncol+1) (the rank sum is computed in double: the seeded regression that computes it in int makes this proof fail) *)
+Theorem C05_nooverflow_ensrank :
+  forall (eps : R) (sim : list (list R)) (ncol : nat) (fmat ranks : list R) (n : nat),
+       Forall (fun r : list R => Datatypes.length r = ncol) sim ->
+       Datatypes.length fmat = (Datatypes.length sim * Datatypes.length sim)%nat ->
+       Datatypes.length ranks = Datatypes.length sim ->
+       (Nat.max (Datatypes.length sim) (2 * ncol) < n)%nat ->
+       2 * Z.of_nat ncol <= 2147483647 ->
+       Z.of_nat (Datatypes.length sim) * Z.of_nat ncol - 1 <= 2147483647 ->
+       Z.of_nat (Datatypes.length sim) * Z.of_nat (Datatypes.length sim) -
+       Z.of_nat (Datatypes.length sim) - 1 <= 2147483647 ->
+       exec_fun RR XRR program_chk (S n) "c_ensrank"
+         [AVF eps; AVI (Z.of_nat (Datatypes.length sim)); AVI (Z.of_nat ncol);
+          AVArrF (List.concat sim); AVArrF fmat; AVArrF ranks] =
+       Ok
+         (RefineEnsrank.ens_outputs
+            (RefineEnsrank.ensrank_s RR KR (RefineEnsrank.qs RR KR) eps sim) sim fmat ranks).
+Proof. exact @ChkMisc.ChkEnsrank.chk_refine_c_ensrank_qsort_RR. Qed.
+Print Assumptions C05_nooverflow_ensrank.
+
+(* necessity of 2*ncol <= INT_MAX (an (nval, 2^30) ensemble array: 8 GiB) *)
+Theorem C05_overflow_ensrank_2ncol :
+  forall (T : Type) (N : NumOps T) (X : NumLit T) (eps : T) (nval : Z)
+         (sim fmat ranks : list T) (n : nat),
+       nltb N eps (nlit X 9.9999999999999995e-21 1 100000000000000000000) = false ->
+       0 < nval ->
+       exec_fun N X program_chk (S n) "c_ensrank"
+         [AVF eps; AVI nval; AVI 1073741824; AVArrF sim; AVArrF fmat; AVArrF ranks] =
+       Err (Overflow true 2147483648).
+Proof. exact @ChkMisc.ChkEnsrank.overflow_c_ensrank_2ncol. Qed.
+Print Assumptions C05_overflow_ensrank_2ncol.
+
+(* ================================================================== *)
+(* no signed integer overflow (continued): the remaining gis kernels  *)
+(* ================================================================== *)
+From Coq Require Import String Lia PrimFloat.
+From Hy Require Import Base.Num Base.MiniC Gen.KernelsAst Gen.Consts Gen.KernelsAstChk Model.Grid.
+From Hy Require Proofs.ChkGis.
+Import ListNotations.
+Open Scope string_scope.
+Open Scope list_scope.
+Open Scope Z_scope.
+
+Theorem C05_nooverflow_celldist :
+  forall (T : Type) (N : NumOps T) (X : NumLit T) (nrows ncols n1 n2 : Z) (n : nat),
+       (0 <= n1 -> ChkGis.fits64 (nrows * ncols)) ->
+       (0 < n)%nat ->
+       exists ret : Z,
+         exec_fun N X program_chk (S n) "celldist" [AVI nrows; AVI ncols; AVI n1; AVI n2] =
+         Ok (RI ret, []) /\
+         (if (n1 <? 0) || (nrows * ncols <=? n1) || (n2 <? 0) || (nrows * ncols <=? n2)
+          then 0 < ret
+          else ret = SafeGis.celldist_spec nrows ncols n1 n2).
+Proof. exact @ChkGis.chk_safe_celldist. Qed.
+Print Assumptions C05_nooverflow_celldist.
+
+Theorem C05_nooverflow_stepsquaredist :
+  forall (T : Type) (N : NumOps T) (X : NumLit T) (ncols n1 n2 : Z) (n : nat),
+       ncols <> 0 ->
+       ChkGis.fits64 n1 ->
+       ChkGis.fits64 n2 ->
+       ~ (ncols = -1 /\ (n1 = ChkGis.MINLL \/ n2 = ChkGis.MINLL)) ->
+       (0 < n)%nat ->
+       exec_fun N X program_chk (S n) "c_catchment.stepsquaredist" [AVI ncols; AVI n1; AVI n2] =
+       Ok
+         (RF
+            (nofZ N
+               (if (getnx ncols n1 =? getnx ncols n2) || (getny ncols n1 =? getny ncols n2)
+                then 1
+                else 2)), []).
+Proof. exact @ChkGis.chk_safe_stepsquaredist. Qed.
+Print Assumptions C05_nooverflow_stepsquaredist.
+
+Theorem C05_nooverflow_exclude_zero_area_boundary :
+  forall (T : Type) (N : NumOps T) (X : NumLit T) (deteps : T) (xy : list T) 
+         (idxok : list Z) (n : nat),
+       Datatypes.length xy = (2 * Datatypes.length idxok)%nat ->
+       2 * Z.of_nat (Datatypes.length idxok) - 1 <= SafeGis.MAXLL ->
+       (Datatypes.length idxok < n)%nat ->
+       exists (ret : retval T) (outs : list (arrval T)),
+         exec_fun N X program_chk (S n) "c_exclude_zero_area_boundary"
+           [AVI (zlen idxok); AVF deteps; AVArrF xy; AVArrI idxok] = Ok (ret, outs) /\
+         (exists (c : Z) (idxok' : list Z),
+            ret = RI c /\
+            outs = [VArrF xy; VArrI idxok'] /\
+            Datatypes.length idxok' = Datatypes.length idxok /\
+            (if zlen idxok <=? 2
+             then 0 < c /\ idxok' = idxok
+             else c = 0 /\ idxok' = repeat 1 (Datatypes.length idxok))).
+Proof. exact @ChkGis.chk_safe_exclude_zero_area_boundary. Qed.
+Print Assumptions C05_nooverflow_exclude_zero_area_boundary.
+
+Theorem C05_nooverflow_slope :
+  forall (T : Type) (N : NumOps T) (X : NumLit T) (nrows ncols nprint : Z) 
+         (cellsize : T) (code flowdir : list Z) (altitude slopeval : list T) 
+         (n : nat),
+       Datatypes.length code = 9%nat ->
+       Z.of_nat (Datatypes.length flowdir) = nrows * ncols ->
+       Z.of_nat (Datatypes.length flowdir) <= SafeGis.MAXLL ->
+       Datatypes.length altitude = Datatypes.length flowdir ->
+       Datatypes.length slopeval = Datatypes.length flowdir ->
+       (Datatypes.length flowdir + 10 < n)%nat ->
+       exists (ret : retval T) (outs : list (arrval T)),
+         exec_fun N X program_chk (S n) "c_slope"
+           [AVI nrows; AVI ncols; AVI nprint; AVF cellsize; AVArrI code; 
+            AVArrI flowdir; AVArrF altitude; AVArrF slopeval] = Ok (ret, outs) /\
+         (exists (c : Z) (slopeval' : list T),
+            ret = RI c /\
+            outs = [VArrI code; VArrI flowdir; VArrF altitude; VArrF slopeval'] /\
+            Datatypes.length slopeval' = Datatypes.length slopeval /\
+            (if nrows <? 1 then 0 < c /\ slopeval' = slopeval else c = 0)).
+Proof. exact @ChkGis.chk_safe_slope. Qed.
+Print Assumptions C05_nooverflow_slope.
+
+Theorem C05_nooverflow_slice :
+  forall (T : Type) (N : NumOps T) (X : NumLit T) (nrows ncols : Z) 
+         (xll yll csz : T) (data xys zs : list T) (n : nat),
+       SafeGis.floor_total X ->
+       ChkGis.trunc_rng N nrows ->
+       ChkGis.trunc_rng N ncols ->
+       Z.of_nat (Datatypes.length data) = nrows * ncols ->
+       Z.of_nat (Datatypes.length data) <= SafeGis.MAXLL ->
+       Datatypes.length xys = (2 * Datatypes.length zs)%nat ->
+       2 * Z.of_nat (Datatypes.length zs) - 1 <= SafeGis.MAXLL ->
+       (Datatypes.length zs + 2 < n)%nat ->
+       exists (ret : retval T) (outs : list (arrval T)),
+         exec_fun N X program_chk (S n) "c_slice"
+           [AVI nrows; AVI ncols; AVF xll; AVF yll; AVF csz; AVArrF data; 
+            AVI (zlen zs); AVArrF xys; AVArrF zs] = Ok (ret, outs) /\
+         ret = RI 0 /\
+         (exists zs' : list T,
+            outs = [VArrF data; VArrF xys; VArrF zs'] /\ Datatypes.length zs' = Datatypes.length zs).
+Proof. exact @ChkGis.chk_safe_slice. Qed.
+Print Assumptions C05_nooverflow_slice.
+
+(* c_delineate_boundary: besides nrows*ncols + ncols - 1 (idxcell + shift) the squared distances nrows^2 + ncols^2 must fit a long long *)
+Theorem C05_nooverflow_delineate_boundary :
+  forall (T : Type) (N : NumOps T) (X : NumLit T) (nrows ncols : Z)
+         (area buffer mask bnd : list Z) (n : nat),
+       Datatypes.length buffer = Datatypes.length area ->
+       Datatypes.length bnd = Datatypes.length area ->
+       Z.of_nat (Datatypes.length mask) = nrows * ncols ->
+       SafeGis.perc_ok N X (Z.of_nat (Datatypes.length area)) ->
+       Z.of_nat (Datatypes.length area) <= SafeGis.MAXLL ->
+       nrows * ncols + ncols - 1 <= SafeGis.MAXLL ->
+       nrows * nrows + ncols * ncols <= SafeGis.MAXLL ->
+       (Datatypes.length area + 4 < n)%nat ->
+       exists (ret : retval T) (outs : list (arrval T)),
+         exec_fun N X program_chk (S n) "c_delineate_boundary"
+           [AVI nrows; AVI ncols; AVI (zlen area); AVArrI area; AVArrI buffer; 
+            AVArrI mask; AVArrI bnd] = Ok (ret, outs) /\
+         (exists (c : Z) (area' buffer' bnd' : list Z),
+            ret = RI c /\
+            0 <= c /\
+            outs = [VArrI area'; VArrI buffer'; VArrI mask; VArrI bnd'] /\
+            Datatypes.length area' = Datatypes.length area /\
+            Datatypes.length buffer' = Datatypes.length buffer /\
+            Datatypes.length bnd' = Datatypes.length bnd).
+Proof. exact @ChkGis.chk_safe_delineate_boundary. Qed.
+Print Assumptions C05_nooverflow_delineate_boundary.
+
+(* ... necessary: a 1 x 3037000500 grid passes the wrapper's shape checks and overflows distmax*distmax (24 GB mask: beyond the assumed grid sizes, see the manifest note) *)
+Theorem C05_overflow_delineate_boundary_distmax :
+  forall (T : Type) (N : NumOps T) (X : NumLit T) (mask : list Z) (b0 d0 : Z),
+       exec_fun N X program_chk 10 "c_delineate_boundary"
+         [AVI 1; AVI 3037000500; AVI 1; AVArrI [0]; AVArrI [b0]; AVArrI mask; AVArrI [d0]] =
+       Err (Overflow false 9223372037000250000).
+Proof. exact @ChkGis.overflow_delineate_boundary_distmax. Qed.
+Print Assumptions C05_overflow_delineate_boundary_distmax.
